@@ -14,8 +14,17 @@ The model also computes the structural signature *multi-level observable*:
 the set of depths (step indices) at which every observable is visited; the
 signature holds when one observable is visited at two different depths with
 one visit nested under the other (a cycle through the root along the
-expression).  It is sticky per history and is the first component of the
-mechanism key (`multi-level/...`), cf. DESIGN.md section 4 C08 N, F15, F16.
+expression).  It is sticky per registration and history and is the first
+component of the mechanism key (`multi-level/<escape:Exc|stale-hook|
+missing-hook|...>`), cf. DESIGN.md section 4 C08 N, F15, F16.  A second, much
+narrower signature (`set-equal-twin/...`) marks set operations whose argument
+is equal to, hash-equal to, but not identical with a stored element; it can
+only arise in the enumerated stratum 'e'.  Every other disagreement is keyed
+`<complaint>/<what was observed>/after:<class of the last structural op>`.
+
+Histories are concrete, replayable operation lists (indices into the pool,
+reduced modulo the current length when applied), so that a ddmin shrinker can
+drop operations while the same key still fires.
 """
 import functools
 
@@ -31,34 +40,42 @@ META = {
     "level": "exploration",
     "rule": ("a case is one primitive step (link/container assignment, list/dict/set mutation, "
              "first read of a default, add_trait, Int probe, fresh-node insertion/removal probe) of a "
-             "generated history over a pool of 5-9 interlinked Node objects with 1-2 registered "
-             "observe expressions (catalogue + typed random generator; registered as text, parsed "
-             "expression, structured trait(...) expression, flattened per-path expression, list, "
-             "module-level observe(), apply_observers(compile_str/compile_expr)), judged per registered "
-             "handler against the reachability model.  Three strata: 't' acyclic pool graphs, 'c' cyclic "
-             "pool graphs incl. cycles through the root (random), 'd' enumerated cycle-through-root "
-             "patterns.  distinct_nontrivial counts distinct (stratum, step kind, method, expression "
-             "shape, registration form, all-equal flag, expected/observed event class) signatures of "
-             "steps in which the model expected an event, an event was delivered, or a reachable "
-             "observable was mutated silently (':' link)."),
+             "generated history over a pool of 5-10 interlinked Node objects with 1-2 registered "
+             "observe expressions (catalogue + typed random generator; registered as text, parse(text), "
+             "structured trait(...) expression, flattened per-path expression, list, module-level "
+             "observe(), apply_observers(compile_str/compile_expr)), judged per registered handler "
+             "against the reachability model.  Strata: 't' acyclic pool graphs (random), 'c' cyclic pool "
+             "graphs incl. cycles through the root (random), 'd' enumerated cycle-through-root patterns, "
+             "'e' enumerated discard/remove of an equal twin from an observed set.  distinct_nontrivial "
+             "counts distinct (stratum, step kind, method, expression shape, text/object form, all-equal "
+             "flag, expected, observed) signatures of steps in which the model expected an event, an "
+             "event was delivered, or a reachable observable was mutated silently (':' link, equal "
+             "reassignment, default materialisation)."),
+    "exhaustive_parts": ("stratum d: every (cycle-prone expression, first-step slot, way of closing the "
+                         "cycle through the root, text/expr/paths form, observe before/after closing, "
+                         "identity/all-equal nodes) combination; stratum e: 6 expressions x "
+                         "discard/remove x 3 forms"),
     "phases": [{"name": "main", "flavour": "P", "shards": 16}],
     "gates": {
-        "quick": {"evaluations": 60000, "probe_matched": 8000, "probe_silent": 15000,
-                  "detached_silent": 600, "container_events_matched": 1500,
-                  "link_events_matched": 150, "quiet_link_silent": 300,
-                  "fresh_hooked": 600, "fresh_unhooked": 600, "default_reads": 100,
-                  "added_trait_probes_matched": 20, "dup_item_steps": 100,
-                  "histories_acyclic": 300, "histories_cyclic": 100,
-                  "cyclic_nonmulti_probe_checks": 3000, "object_form_registrations": 100,
-                  "text_form_registrations": 100},
-        "thorough": {"evaluations": 1500000, "probe_matched": 200000, "probe_silent": 400000,
-                     "detached_silent": 15000, "container_events_matched": 40000,
-                     "link_events_matched": 4000, "quiet_link_silent": 8000,
-                     "fresh_hooked": 15000, "fresh_unhooked": 15000, "default_reads": 2500,
-                     "added_trait_probes_matched": 500, "dup_item_steps": 2500,
-                     "histories_acyclic": 8000, "histories_cyclic": 2500,
-                     "cyclic_nonmulti_probe_checks": 80000, "object_form_registrations": 2500,
-                     "text_form_registrations": 2500},
+        "quick": {"evaluations": 300000, "probe_matched": 10000, "probe_silent": 200000,
+                  "detached_silent": 4000, "container_events_matched": 12000,
+                  "link_events_matched": 500, "quiet_link_silent": 3000, "equal_reassign_silent": 250,
+                  "fresh_hooked": 2000, "fresh_unhooked": 2000, "default_reads": 200,
+                  "added_trait_probes_matched": 100, "trait_added_events_matched": 8,
+                  "dup_item_steps": 1200, "retired_container_checks": 6000,
+                  "histories_acyclic": 500, "histories_cyclic": 200, "histories_directed": 200,
+                  "multi_level_histories": 200, "cyclic_nonmulti_probe_checks": 30000,
+                  "object_form_registrations": 500, "text_form_registrations": 500},
+        "thorough": {"evaluations": 6000000, "probe_matched": 200000, "probe_silent": 4000000,
+                     "detached_silent": 80000, "container_events_matched": 240000,
+                     "link_events_matched": 10000, "quiet_link_silent": 60000,
+                     "equal_reassign_silent": 5000, "fresh_hooked": 40000, "fresh_unhooked": 40000,
+                     "default_reads": 4000, "added_trait_probes_matched": 2000,
+                     "trait_added_events_matched": 160, "dup_item_steps": 24000,
+                     "retired_container_checks": 120000, "histories_acyclic": 20000,
+                     "histories_cyclic": 6500, "histories_directed": 200,
+                     "multi_level_histories": 2500, "cyclic_nonmulti_probe_checks": 600000,
+                     "object_form_registrations": 10000, "text_form_registrations": 10000},
     },
     "assumptions": [
         "the reachability model (denotation of the mini-language over __dict__ values and the "
@@ -91,15 +108,31 @@ class Node(HasTraits):
     def __repr__(self):
         return "n%d" % self.__dict__.get("ser", -1)
 
+    def __hash__(self):
+        # serial, not address: set iteration order (and so `pop()`) replays
+        return hash(self.__dict__.get("ser", -1))
+
 
 class EqNode(Node):
-    """All nodes compare equal (stresses every equality filter on the way)."""
+    """All nodes compare equal (stresses every equality filter on the way).
+    The hash stays distinct per node (its serial), so that sets keep telling
+    the nodes apart: what a `set` holding equal-but-distinct elements contains
+    *by identity* is not defined by the set abstraction itself (CPython's
+    `s &= t` may swap an element for its twin)."""
 
     def __eq__(self, other):
         return isinstance(other, Node)
 
     def __ne__(self, other):
         return not isinstance(other, Node)
+
+    __hash__ = Node.__hash__
+
+
+class TwinNode(EqNode):
+    """Equal AND hash-equal nodes ("twins"): only used by the small enumerated
+    stratum 'e' on `discard`/`remove`, whose meaning is unambiguous (the
+    stored element equal to the argument leaves the set)."""
 
     def __hash__(self):
         return 1
@@ -364,16 +397,24 @@ def build_paths(paths):
         for st in p[1:]:
             e = e.then(build_step(st))
         exprs.append(e)
-    return functools.reduce(lambda a, b: a | b, exprs)
+    # balanced or-tree: a left-leaning chain of hundreds of alternatives would only
+    # test the interpreter's recursion limit inside compile_expr
+    while len(exprs) > 1:
+        exprs = [exprs[j] | exprs[j + 1] if j + 1 < len(exprs) else exprs[j]
+                 for j in range(0, len(exprs), 2)]
+    return exprs[0]
+
+
+MAX_FLAT_PATHS = 64
 
 
 def shape_of(paths):
     """Coarse expression shape for signatures: step kinds + notify marks of the
     longest path, number of paths class."""
-    p = max(paths, key=len)
+    p = max(paths, key=len)[:5]
     s = "".join({"trait": "t", "meta": "m", "any": "a", "list": "L", "dict": "D", "set": "S"}[st[0]]
                 + ("" if st[2] else "'") + ("?" if st[3] else "") for st in p)
-    return s, min(len(paths), 9)
+    return s + ("|" if len(paths) > 4 else "")
 
 
 # ---------------------------------------------------------------------------
@@ -553,7 +594,8 @@ class World:
         self.spec = spec
         self.sink = sink
         self.alleq = bool(spec["alleq"])
-        self.cls = EqNode if self.alleq else Node
+        self.cls = TwinNode if spec["alleq"] == "twin" else EqNode if self.alleq else Node
+        self.twin = False
         self.pool = [self.cls(ser=i) for i in range(spec["npool"])]
         self.added = {}            # id(node) -> {name: kind}
         self.retired = []          # [(label, kind, container)]
@@ -562,13 +604,13 @@ class World:
         self.models = []
         self.multi = False
         self.multi_info = []
+        self.multi_regs = set()    # registrations that ever had a multi-level observable
         self.was_cyclic = False
         self.ever = []
         self.nstep = 0
         self.temp = []
         self.opclass = "start"
         self.stratum = spec.get("stratum", "t")
-        self.in_probe = False
 
     # -- schema ------------------------------------------------------------
     def has(self, obj, name):
@@ -665,6 +707,7 @@ class World:
                         "%s@depths{%s}" % (self.label(x), ",".join(map(str, sorted(m.depths[x]))))
                         for x in m.nested_keys)[:6]
                 self.multi = True
+                self.multi_regs.add(k)
             self.ever[k].update(x for x in m.notif if x[0] == "t")
         return self.models
 
@@ -763,8 +806,8 @@ class World:
         return [e for (ri, e) in self.log if ri == k]
 
     def _sig(self, reg, stepkind, method, expected, got):
-        self.sink.sig(self.stratum, stepkind, method, reg.shape, reg.spec["form"], self.alleq,
-                      expected, got)
+        self.sink.sig(self.stratum, stepkind, method, reg.shape,
+                      reg.spec["form"] in TEXT_FORMS, self.alleq, expected, got)
 
     def _judge_trait(self, k, reg, what, obj, name, allowed, ckind, old_ok, new_ok, stepkind,
                      method=""):
@@ -804,7 +847,14 @@ class World:
 
     # -- primitive: Int probe -------------------------------------------------
     def do_probe(self, obj, name, tag="probe"):
-        cur = getattr(obj, name)
+        box = []
+        exc = self._run(lambda: box.append(getattr(obj, name)))
+        if exc is not None or self.log or CHANNEL:
+            # reading an Int trait is legal and silent
+            self._post(exc, "read %r.%s" % (obj, name), recompute=False)
+            raise Complaint("stale-hook", "reading %r.%s delivered %r" % (obj, name, self.log[:2]),
+                            {"step": "read %r.%s" % (obj, name)}, "default-read")
+        cur = box[0]
         new = cur + 1
         what = "%s %r.%s = %d" % (tag, obj, name, new)
         key = ("t", id(obj), name)
@@ -813,10 +863,10 @@ class World:
         nmatched = 0
         for k, reg in enumerate(self.regs):
             matched = key in m0[k].notif
-            n = self._judge_trait(k, reg, what, obj, name, {1} if matched else {0}, "leaf",
-                                  lambda o: type(o) is int and o == cur,
-                                  lambda v: type(v) is int and v == new, tag, name if name in INTS
-                                  else "added")
+            self._judge_trait(k, reg, what, obj, name, {1} if matched else {0}, "leaf",
+                              lambda o: type(o) is int and o == cur,
+                              lambda v: type(v) is int and v == new, tag, name if name in INTS
+                              else "added")
             self.sink.count("probe_checks")
             if matched:
                 self.sink.count("probe_matched")
@@ -1129,6 +1179,14 @@ class World:
             fn = self._mutation(k, c, method, op[4:])
             if fn is None:
                 return
+            if k == "s":
+                # structural signature: a set operation whose argument is equal to, but
+                # not identical with, a stored element
+                args = [self.node(t) for x in op[4:] for t in (x if isinstance(x, list) else [x])
+                        if isinstance(t, int)]
+                if any(x is not None and x is not e and _safe_eq(x, e) and hash(x) == hash(e)
+                       for x in args for e in list(c)):
+                    self.twin = True
             self.do_cont(c, CONTS[tr], fn, "%r.%s.%s%r" % (a, tr, method, tuple(op[4:])), method)
         else:
             raise AssertionError(op)
@@ -1250,7 +1308,6 @@ class World:
     def probe_phase(self):
         if not self.regs:
             return
-        saved = self.opclass
         for n in list(self.pool):
             for nm in self.int_names(n):
                 self.do_probe(n, nm)
@@ -1269,7 +1326,6 @@ class World:
         chosen = _rotate(visited, r, 5) + _rotate(others, r, 2) + _rotate(self.retired, r, 2)
         for lab, kind, c in chosen:
             self.container_probe(lab, kind, c)
-        self.opclass = saved
 
     def container_probe(self, lab, kind, c):
         fresh = self.cls(ser=900 + len(self.temp))
@@ -1394,8 +1450,13 @@ def make_key(W, c):
     """Mechanism key.  The structural signature computed by the model comes
     first; outside it the complaint family, what was observed and the class of
     the last structural operation."""
-    if W.multi:
+    reg = c.extra.get("reg")
+    if (reg in W.multi_regs) if reg is not None else W.multi:
+        # a complaint about one handler is attributed to the signature of that
+        # registration; an escaping exception to any registration's
         return "multi-level/" + c.what
+    if W.twin:
+        return "set-equal-twin/" + c.what
     if c.kind:
         return "%s/%s/after:%s" % (c.what, c.kind, W.opclass)
     return "%s/after:%s" % (c.what, W.opclass)
@@ -1441,7 +1502,7 @@ def execute(spec, actions, sink, gen=None):
     return {"key": None, "world": W}
 
 
-def ddmin(items, test, budget=160):
+def ddmin(items, test, budget=100):
     """Classic ddmin on a list; `test(candidate)` is True when the candidate
     still shows the same mechanism key."""
     calls = [0]
@@ -1484,7 +1545,9 @@ def shrink(spec, actions, key):
 def script(spec, actions):
     """Human-readable rendering of a history (plain Python against traits)."""
     lines = ["pool = [%s(ser=i) for i in range(%d)]   # n0..n%d%s"
-             % ("EqNode" if spec["alleq"] else "Node", spec["npool"], spec["npool"] - 1,
+             % ("TwinNode" if spec["alleq"] == "twin" else "EqNode" if spec["alleq"] else "Node",
+                spec["npool"], spec["npool"] - 1,
+                "; all nodes compare equal and hash equal" if spec["alleq"] == "twin" else
                 "; all nodes compare equal" if spec["alleq"] else "")]
     for act in actions:
         k = act[0]
@@ -1510,8 +1573,40 @@ def script(spec, actions):
             lines.append("n%d.add_trait(%r, %s)" % (act[1], act[2],
                          {"x0": "Int(tag=True)", "y0": "Int()", "items": "Instance(Node, link=True)"}[act[2]]))
         else:
-            lines.append("n%d.%s.%s(%s)   # indices modulo len, ints are pool indices"
-                         % (act[1], act[2], act[3], ", ".join(map(repr, act[4:]))))
+            a, tr, m, args = act[1], act[2], act[3], act[4:]
+            tgt = "n%d.%s" % (a, tr)
+
+            def nn(x):
+                return "[" + ", ".join("n%d" % i for i in x) + "]" if isinstance(x, list) else "n%d" % x
+            if m == "setitem":
+                line = "%s[%d %% len] = %s" % (tgt, args[0], nn(args[1]))
+            elif m == "set":
+                line = "%s[%r] = %s" % (tgt, args[0], nn(args[1]))
+            elif m in ("append", "add", "discard", "extend", "iadd", "update", "ixor", "isub", "iand") \
+                    and act[0] != "d":
+                line = "%s.%s(%s)" % (tgt, {"iadd": "__iadd__", "ixor": "symmetric_difference_update",
+                                            "isub": "difference_update",
+                                            "iand": "intersection_update"}.get(m, m), nn(args[0]))
+            elif m == "remove" and act[0] == "s":
+                line = "%s.remove(%s)" % (tgt, nn(args[0]))
+            elif m == "insert":
+                line = "%s.insert(%d %% (len+1), %s)" % (tgt, args[0], nn(args[1]))
+            elif m == "setslice":
+                line = "%s[i:j] = %s   # i,j = sorted(%d,%d modulo len+1)" % (tgt, nn(args[2]), args[0],
+                                                                            args[1])
+            elif m == "extslice":
+                line = "%s[::2] = <as many items as needed, cycled from %s>" % (tgt, nn(args[0]))
+            elif m == "setdefault":
+                line = "%s.setdefault(%r, %s)" % (tgt, args[0], nn(args[1]))
+            elif m == "update":
+                line = "%s.update({%s})" % (tgt, ", ".join("%r: n%d" % (kk, b) for kk, b in args[0]))
+            elif m == "remove":
+                line = "%s.remove(%s[%d %% len])" % (tgt, tgt, args[0])
+            else:
+                line = "%s.%s(%s)   # list indices are taken modulo len" % (
+                    tgt, {"del": "__delitem__", "delitem": "__delitem__", "imul": "__imul__"}.get(m, m),
+                    ", ".join(map(repr, args)))
+            lines.append(line)
     return lines
 
 
@@ -1553,6 +1648,8 @@ def gen_op(rng, W, names, cyclic):
     roots = [r.spec["root"] for r in W.regs] or [0]
     links_pref = [x for x in LINKS if x in names] or list(LINKS)
     conts_pref = [x for x in CONTS if x in names] or list(CONTS)
+    add_pref = [x for x in ADDABLE if x in names]
+    table = OP_TABLE + ([("add_trait", 6)] if add_pref else [])
 
     def pick_a():
         if vis_idx and rng.random() < 0.65:
@@ -1577,7 +1674,7 @@ def gen_op(rng, W, names, cyclic):
 
     for _ in range(12):
         a = pick_a()
-        k = _wchoice(rng, OP_TABLE)
+        k = _wchoice(rng, table)
         node = W.pool[a]
         if k == "set":
             tr = pick_link()
@@ -1599,7 +1696,10 @@ def gen_op(rng, W, names, cyclic):
         elif k == "read":
             op = ["read", a, rng.choice(["lazy", "lazy", "children", "cmap", "cset", "child"])]
         elif k == "add_trait":
-            op = ["add_trait", a, rng.choice(["x0", "x0", "y0", "items"])]
+            if add_pref and rng.random() < 0.75:
+                op = ["add_trait", a, rng.choice(add_pref)]
+            else:
+                op = ["add_trait", a, rng.choice(["x0", "x0", "y0", "items"])]
         elif k == "l":
             tr = "children"
             m = _wchoice(rng, L_METHODS)
@@ -1657,6 +1757,12 @@ def names_in(ast, acc=None):
         acc.add(ast[1])
     elif k == "meta" and ast[1] == "link":
         acc.update(("child", "other"))
+    elif k == "meta":
+        acc.add("x0")
+    elif k == "any":
+        acc.update(("x0", "y0"))
+    elif k == "items":
+        acc.add("items")
     elif k == "par":
         for a in ast[1]:
             names_in(a, acc)
@@ -1679,6 +1785,8 @@ def make_reg(rng, ast, root, cyc=False):
         # the text must mean what the AST means (our parser is the reader of the text)
         if dedupe_paths(den(parse_text(text))) != dedupe_paths(den(ast)):
             raise RuntimeError("harness: render/parse mismatch for %r" % (text,))
+    if form == "paths" and len(dedupe_paths(den(ast))) > MAX_FLAT_PATHS:
+        form = "expr"              # every `items` multiplies the flattened spelling by four
     return {"root": root, "ast": ast, "text": text, "form": form, "show": show,
             "bound": rng.random() < 0.3}
 
@@ -1816,6 +1924,9 @@ def directed_cases():
                      [["setcont", 0, first, [0]], ["setcont", 0, first, [4]]]),
                     ("slice", [["setcont", 0, first, [1, 2]]],
                      [["l", 0, first, "setslice", 0, 2, [0]], ["l", 0, first, "clear"]]),
+                    # the replaced object stays in the list through a second occurrence
+                    ("dup-setitem", [["setcont", 0, first, [1, 1]]],
+                     [["l", 0, first, "setitem", 0, 0], ["l", 0, first, "setitem", 0, 4]]),
                 ]
             elif first == "cmap":
                 variants = [
@@ -1823,6 +1934,8 @@ def directed_cases():
                      [["d", 0, first, "set", "x", 0], ["d", 0, first, "set", "x", 4]]),
                     ("add-del", [["setcont", 0, first, [["x", 1]]]],
                      [["d", 0, first, "set", "y", 0], ["d", 0, first, "del", "y"]]),
+                    ("dup-setitem", [["setcont", 0, first, [["x", 1], ["y", 1]]]],
+                     [["d", 0, first, "set", "x", 0], ["d", 0, first, "set", "x", 4]]),
                     ("reassign", [["setcont", 0, first, [["x", 1]]]],
                      [["setcont", 0, first, [["x", 0]]], ["setcont", 0, first, [["x", 4]]]]),
                 ]
@@ -1857,7 +1970,7 @@ def report(ctx, spec, actions, res, case_desc):
     key = res["key"]
     full = list(actions[:res["at"] + 1])
     small = full
-    if ctx.viol_per_key.get(key, 0) < 2:
+    if ctx.viol_per_key.get(key, 0) < 1:
         small = shrink(spec, full, key)
         again = execute(spec, list(small), NullSink())
         if again["key"] == key:
@@ -1916,8 +2029,35 @@ def run(ctx):
                     report(ctx, spec, actions, res, cid)
         finally:
             ctx.end()
+    # ---- stratum e: equal twins in an observed set (enumerated) ---------------------
+    ei = 0
+    for text in ("cset.items", "cset.items.value", "cset:items.value", "child.cset.items.value",
+                 "cset.items.cset.items", "cset.items.*"):
+        for method in ("discard", "remove"):
+            for form in ("text", "expr", "paths"):
+                ei += 1
+                if not ctx.mine(ei):
+                    continue
+                cid = "e:%d" % ei
+                if not ctx.begin(cid, {"expr": text, "method": method, "form": form}):
+                    continue
+                try:
+                    ast = parse_text(text)
+                    rs = {"root": 0, "ast": ast, "text": text, "form": form,
+                          "show": repr(text) if form == "text" else describe_ast(ast), "bound": False}
+                    spec = {"alleq": "twin", "npool": 4, "regs": [rs], "stratum": "e"}
+                    pre = [["set", 0, "child", 1]] if text.startswith("child") else []
+                    own = 1 if pre else 0
+                    actions = pre + [["setcont", own, "cset", [2]], ["observe", 0],
+                                     ["s", own, "cset", method, 3], ["s", own, "cset", "add", 3]]
+                    res = execute(spec, actions, ctx)
+                    ctx.count("histories_twin")
+                    if res["key"]:
+                        report(ctx, spec, actions, res, cid)
+                finally:
+                    ctx.end()
     # ---- strata t / c: random histories ------------------------------------------
-    for stratum, nh in (("t", ctx.scale(1400, 40000)), ("c", ctx.scale(500, 14000))):
+    for stratum, nh in (("t", ctx.scale(1600, 60000)), ("c", ctx.scale(600, 20000))):
         for h in range(nh):
             if not ctx.mine(h):
                 continue
